@@ -1,7 +1,7 @@
 #!/bin/bash
 # usage: tools/confirm_seed.sh <seed dir with patch.diff demo.py> <logfile>
 #  - demo on an unchanged scratch copy must exit 0, with the patch exit non-zero
-#  - the repository's test suite (baseline-stable tests) must still pass with the patch
+#  - the repository's full test suite with the patch: the set of failing tests must equal the baseline's always_fail set
 S=$(readlink -f "$1"); LOG=$2
 D=/dev/shm/pe_confirm.$$
 rm -rf "$D"; mkdir -p "$D"
@@ -11,13 +11,18 @@ cd "$D"
 echo "== demo without change"; PYTHONPATH="$D" /venv/bin/python "$S/demo.py" > out0.txt 2>&1; echo "exit=$?"; tail -3 out0.txt
 git init -q . ; git apply --whitespace=nowarn "$S/patch.diff" || echo "PATCH-DOES-NOT-APPLY"
 echo "== demo with change"; PYTHONPATH="$D" /venv/bin/python "$S/demo.py" > out1.txt 2>&1; echo "exit=$?"; tail -3 out1.txt
-echo "== test suite with change"
-/venv/bin/python -m pytest -q -p no:cacheprovider --timeout=900 -x \
-  --deselect tests/fits_test.py::test_combined_fit_no_autograd --deselect tests/fits_test.py::test_fit_no_autograd \
-  --deselect tests/obs_test.py::test_function_overloading --deselect tests/roots_test.py::test_root_no_autograd \
-  --deselect tests/pandas_test.py::test_nan_df_export_import --deselect tests/pandas_test.py::test_null_first_line_df_export_import \
-  --deselect tests/pandas_test.py::test_null_first_line_df_gzsql_export_import --deselect tests/pandas_test.py::test_null_first_line_df_sql_export_import \
-  --deselect tests/pandas_test.py::test_null_second_line_df_export_import --deselect tests/pandas_test.py::test_null_second_line_df_gzsql_export_import \
-  --deselect tests/pandas_test.py::test_null_second_line_df_sql_export_import 2>&1 | tail -4
+echo "== test suite with change (full baseline command)"
+OMP_NUM_THREADS=1 OPENBLAS_NUM_THREADS=1 /venv/bin/python -m pytest -ra -q -p no:cacheprovider --timeout=900 --continue-on-collection-errors 2>&1 | grep -E "^FAILED|^ERROR|passed|failed" > suite.txt
+tail -1 suite.txt
+/venv/bin/python - <<'PY'
+import json,re
+base=set(json.load(open('/root/.vp/BASELINE.json'))['always_fail'])
+fails=set()
+for l in open('suite.txt'):
+    m=re.match(r'(FAILED|ERROR) (tests/\S+?)\.py::(\S+)',l)
+    if m: fails.add(m.group(2).replace('/','.')+'::'+m.group(3))
+extra=sorted(fails-base)
+print('SUITE-OK: failing set is within the baseline always_fail set' if not extra else 'SUITE-BROKEN: additional failures %s'%extra)
+PY
 } > "$LOG" 2>&1
 cd /; rm -rf "$D"
